@@ -56,6 +56,9 @@ enum Final {
 
 fn sched_name(order: &[Stage; 4], mask: u32) -> String {
     let mut s = String::new();
+    if mask & 32 != 0 {
+        s.push_str("[args in two instalments with R between] ");
+    }
     if mask & 1 != 0 {
         s.push_str("R,");
     }
@@ -79,7 +82,7 @@ impl Property for C07 {
         "C07"
     }
     fn rule(&self) -> String {
-        "for every tx of generated programs (all core features; compiler built-ins over literals and over parameters) and one in-range world: all 24 orders of the stages {args, inputs, fees, compiler-ops} x all 32 subsets of reduce placements (initially and after each stage), followed by a final reduce; a schedule is admissible when the compiler-op stage comes after the stages its operands depend on (known from the generator: after `args` when a built-in has a parameter operand). Oracle: the canonical form (map entries, UtxoSet and Assets lists sorted) of the fully reduced template and the independently decoded compiled transaction are identical across all admissible schedules; reduce(reduce(t)) = reduce(t) after every reduction performed. Non-trivial: the template uses >= 3 of {params, inputs-as-values, fees, compiler ops}; distinct = distinct (source, world).".into()
+        "for every tx of generated programs (all core features; compiler built-ins over literals and over parameters; every third template built from asset atoms in which exactly one of policy / name / amount is a parameter) and one in-range world: all 24 orders of the stages {args, inputs, fees, compiler-ops} x all 32 subsets of reduce placements (initially and after each stage) x {arguments applied at once, arguments applied in two instalments with a reduction in between}, followed by a final reduce; a schedule is admissible when the compiler-op stage comes after the stages its operands depend on (known from the generator: after `args` when a built-in has a parameter operand). Oracle: the canonical form (map entries, UtxoSet and Assets lists sorted) of the fully reduced template and the independently decoded compiled transaction are identical across all admissible schedules; reduce(reduce(t)) = reduce(t) after every reduction performed. Non-trivial: the template uses >= 3 of {params, inputs-as-values, fees, compiler ops}; distinct = distinct (source, world).".into()
     }
     fn assumptions(&self) -> Vec<String> {
         vec![
@@ -94,10 +97,11 @@ impl Property for C07 {
         }
     }
     fn required_features(&self, _tier: Tier) -> Vec<String> {
-        ["schedules/admissible", "schedules/inadmissible-skipped", "idempotence-checks", "templates/with-cop-over-param", "final/compiled"].iter().map(|s| s.to_string()).collect()
+        ["schedules/admissible", "schedules/inadmissible-skipped", "idempotence-checks", "templates/with-cop-over-param", "templates/with-partial-const-atoms", "final/compiled"].iter().map(|s| s.to_string()).collect()
     }
     fn run_case(&self, ctx: &mut Ctx, phase: &str, idx: u64, rng: &mut Rng) {
-        let cfg = Cfg { risky_pct: 40, cardano_pct: 30, ..Default::default() };
+        // every third template: partially constant asset atoms (what an early reduction must leave alone)
+        let cfg = Cfg { risky_pct: 40, cardano_pct: 30, partial_const: idx % 3 == 0, ..Default::default() };
         let g = build::generate(rng, &cfg);
         let src = print_program(&g.prog, Layout::plain());
         let cop_over_param = g.prog.tags.iter().any(|t| t == "risky:compiler-op-over-param");
@@ -115,16 +119,19 @@ impl Property for C07 {
             if cop_over_param {
                 ctx.count("templates/with-cop-over-param");
             }
+            if g.prog.tags.iter().any(|t| t == "partial-const-atom") {
+                ctx.count("templates/with-partial-const-atoms");
+            }
             let mut results: BTreeMap<String, Final> = BTreeMap::new();
             let mut idem_failed = false;
             for order in &perms {
                 // admissibility: compiler ops after args when a built-in reads a parameter
                 let pos = |s: Stage| order.iter().position(|x| *x == s).unwrap();
                 if cop_over_param && pos(Stage::CompilerOps) < pos(Stage::Args) {
-                    ctx.add("schedules/inadmissible-skipped", 32);
+                    ctx.add("schedules/inadmissible-skipped", 64);
                     continue;
                 }
-                for mask in 0u32..32 {
+                for mask in 0u32..64 {
                     ctx.eval();
                     ctx.count("schedules/admissible");
                     let name = sched_name(order, mask);
@@ -150,6 +157,14 @@ impl Property for C07 {
                         }
                         for (i, st) in order.iter().enumerate() {
                             t = match st {
+                                Stage::Args if mask & 32 != 0 && args.len() >= 2 => {
+                                    // the arguments arrive in two instalments with a reduction in between
+                                    let first: BTreeMap<_, _> = args.iter().enumerate().filter(|(k, _)| k % 2 == 0).map(|(_, (n, v))| (n.clone(), v.clone())).collect();
+                                    let second: BTreeMap<_, _> = args.iter().enumerate().filter(|(k, _)| k % 2 == 1).map(|(_, (n, v))| (n.clone(), v.clone())).collect();
+                                    let t = apply_args(t, &first).map_err(|e| format!("args-error:{}", err_sig(&e.to_string())))?;
+                                    let t = red(t, "between-args")?;
+                                    apply_args(t, &second).map_err(|e| format!("args-error:{}", err_sig(&e.to_string())))?
+                                }
                                 Stage::Args => apply_args(t, args).map_err(|e| format!("args-error:{}", err_sig(&e.to_string())))?,
                                 Stage::Inputs => apply_inputs(t, inputs).map_err(|e| format!("inputs-error:{}", err_sig(&e.to_string())))?,
                                 Stage::Fees => apply_fees(t, fee).map_err(|e| format!("fees-error:{}", err_sig(&e.to_string())))?,
